@@ -124,6 +124,10 @@ func (fc *FuncCtx) checkGuard(fr *Frame, st *State, p PlaceV, pos token.Pos, wri
 	if !fc.guardMode {
 		return
 	}
+	if p.Kind == "global" && p.Global != nil && len(p.Path) == 0 {
+		fc.checkGlobalGuard(fr, st, p, pos, write)
+		return
+	}
 	if p.Kind != "obj" {
 		return
 	}
@@ -144,6 +148,21 @@ func (fc *FuncCtx) checkGuard(fr *Frame, st *State, p PlaceV, pos token.Pos, wri
 		}
 		key := "L!O!" + typeKey(t) + "." + g.Lock
 		held := fc.heldTerm(st, key, p.Idx[0])
+		if stt, ok := t.Underlying().(*types.Struct); ok {
+			for i := 0; i < stt.NumFields(); i++ {
+				if stt.Field(i).Name() == g.Lock {
+					if _, isPtr := stt.Field(i).Type().Underlying().(*types.Pointer); isPtr {
+						// the mutex is held by pointer: the lock that counts is the one the field points to now
+						lp := fc.objPlace(p.Idx[0], t)
+						lp.Path = []string{g.Lock}
+						lp.Typ = stt.Field(i).Type()
+						if lv, ok := fc.loadPlace(st, lp).(Scalar); ok {
+							held = fc.heldTerm(st, "L!bare", lv.T)
+						}
+					}
+				}
+			}
+		}
 		saved := fc.props
 		if len(g.Props) > 0 {
 			fc.props = g.Props
@@ -154,6 +173,40 @@ func (fc *FuncCtx) checkGuard(fr *Frame, st *State, p PlaceV, pos token.Pos, wri
 		}
 		fc.oblige(fr, st, "guard."+g.Type+"."+g.Field, "", held, pos, acc+" of "+g.Type+"."+g.Field+" happens with "+g.Lock+" held")
 		fc.props = saved
+	}
+}
+
+// checkGlobalGuard: `guarded global x by l` — package-level variable x is only touched with the package-level lock l
+// held (l: a mutex variable, or a variable holding a pointer to one).
+func (fc *FuncCtx) checkGlobalGuard(fr *Frame, st *State, p PlaceV, pos token.Pos, write bool) {
+	if fc.isPkgInit() {
+		// package initialisation happens before any goroutine of the package exists
+		return
+	}
+	for _, g := range fc.eng.guarded {
+		if g.Type != "global" || g.Field != p.Global.Name() || p.Global.Pkg == nil || p.Global.Pkg.Pkg.Path() != g.Pkg {
+			continue
+		}
+		lg, _ := p.Global.Pkg.Members[g.Lock].(*ssa.Global)
+		if lg == nil {
+			fc.unsupported("guarded global %s: no package-level variable %s", g.Field, g.Lock)
+		}
+		var held string
+		lt := lg.Type().(*types.Pointer).Elem()
+		if _, isPtr := lt.Underlying().(*types.Pointer); isPtr {
+			lv, ok := fc.loadPlace(st, PlaceV{Kind: "global", Global: lg, Root: lt, Typ: lt}).(Scalar)
+			if !ok {
+				fc.unsupported("guarded global %s: lock variable %s is not a pointer value", g.Field, g.Lock)
+			}
+			held = fc.heldTerm(st, "L!bare", lv.T)
+		} else {
+			held = fc.heldTerm(st, "L!G!"+globalKey(lg), "0")
+		}
+		acc := "read"
+		if write {
+			acc = "write"
+		}
+		fc.oblige(fr, st, "guard.global."+g.Field, "", held, pos, acc+" of package-level "+g.Field+" happens with "+g.Lock+" held")
 	}
 }
 
